@@ -315,6 +315,7 @@ pub fn make_knobs(profile: Profile, rng: &mut Rng, thorough: bool) -> Knobs {
         }
         Profile::T22 => {
             k.v2_only = true;
+            k.n_pools = *rng.pick(&[1usize, 2, 2, 3]);
             k.hook_pct = *rng.pick(&[0u64, 0, 30, 60]);
             k.spacing_choices = vec![1, 8, 64, 128];
             k.slots_per_epoch = *rng.pick(&[8u64, 20, 50, 432_000]);
